@@ -63,7 +63,7 @@ func newGen(rng *hcommon.RNG, prop string) *genState {
 
 func (g *genState) config() map[string]any {
 	r := g.rng
-	cfg := map[string]any{"uri": "r1", "strict": r.Chance(1, 8), "disclose": r.Chance(1, 2), "metaKill": r.Chance(3, 4),
+	cfg := map[string]any{"uri": "r1", "strict": r.Chance(1, 8), "disclose": r.Chance(1, 2) || (g.prop == "C12" && r.Chance(1, 2)), "metaKill": r.Chance(3, 4),
 		"metaModify": r.Chance(1, 2), "metaStrict": r.Chance(1, 5)}
 	if boolOf(cfg, "metaStrict") && r.Chance(1, 2) {
 		cfg["metaInc"] = []any{"team"}
@@ -151,6 +151,10 @@ func (g *genState) joinOp() map[string]any {
 	local := r.Chance(3, 5)
 	if g.prop == "C15" {
 		local = r.Chance(1, 4)
+	}
+	if g.prop == "C12" {
+		// recipients that are not in-process: the broker may not share one message among them
+		local = r.Chance(1, 3)
 	}
 	roles := map[string]any{}
 	feats := map[string][]string{}
@@ -440,6 +444,11 @@ func (g *genState) next() map[string]any {
 				o["match"] = "prefix"
 				t = hcommon.Pick(r, []string{"wamp.", "wamp.session.", "wamp.subscription.", "wamp.registration."})
 			}
+		}
+		if g.prop == "C12" && len(g.subTopics) > 0 && r.Chance(1, 2) {
+			// several sessions on one subscription: recipients of one publication that differ in what they may see
+			t = hcommon.Pick(r, g.subTopics)
+			delete(o, "match")
 		}
 		if _, pattern := o["match"]; !pattern {
 			g.subTopics = append(g.subTopics, t)
